@@ -480,7 +480,8 @@ macro "rx_eval" "[" ts:Lean.Parser.Tactic.simpLemma,* "]" : tactic =>
   `(tactic| simp (disch := decide) only [↓execBlock_single, execBlock, execStmt, eval, evalArgs, ok_bind, error_bind, set_apply,
       String.reduceEq, ↓reduceIte, evalBuiltin_none, fn_lookups, err_lookups, proc_lookups, trigProc_err, putProc_bytes,
       reqFcProc_one, bytearrayFn_nil, bytearrayFn_bytes, copyFn_one, reportFn_bools, floatFn_int, scListOf_some,
-      truthy_pbool, evalCmp_eq, evalCmp_ne, pvEq_pint, pvEq_pbool, bi_len, $ts,*])
+      truthy_pbool, evalCmp_eq, evalCmp_ne, pvEq_pint, pvEq_pbool, bi_len, ite_tt, ite_ff,
+      stopRecvEnv, trigEnv, putEnv, emptyBufEnv, stopFcEnv, timerStopEnv, timerStartEnv, startCfEnv, reqFcEnv, $ts,*])
 
 /-! ### 4a. the helpers: their own source = the environment transformer -/
 
@@ -492,21 +493,18 @@ theorem empty_rx_buffer_src :
     runFn (rxMethsOf now tCf start data) env Src.TransportLayerLogic_p_empty_rx_buffer = .ok (pnone, emptyBufEnv env) := by
   simp only [runFn, Src.TransportLayerLogic_p_empty_rx_buffer]
   rx_eval []
-  rfl
 
 /-- `_stop_sending_flow_control` -/
 theorem stop_sending_flow_control_src :
     runFn (rxMethsOf now tCf start data) env Src.TransportLayerLogic_p_stop_sending_flow_control = .ok (pnone, stopFcEnv env) := by
   simp only [runFn, Src.TransportLayerLogic_p_stop_sending_flow_control]
   rx_eval []
-  rfl
 
 /-- `_start_rx_cf_timer`: `Timer(timeout=float(ms)/1000)` then `start()` -/
 theorem start_rx_cf_timer_src (ms : Nat) (h : env "self.params.rx_consecutive_frame_timeout" = some (pint ms)) :
     runFn (rxMethsOf now tCf start data) env Src.TransportLayerLogic_p_start_rx_cf_timer = .ok (pnone, startCfEnv now tCf env) := by
   simp only [runFn, Src.TransportLayerLogic_p_start_rx_cf_timer]
   rx_eval [h, truediv_ev]
-  rfl
 
 /-- `_append_rx_data(data)`: the source run with its parameter bound, and the `Meths` entry the callers use; they differ only on
     the callee's parameter `data` -/
@@ -533,7 +531,6 @@ theorem request_tx_flowcontrol_src (v : PV) :
   refine ⟨?_, ?_, ?_⟩
   · simp only [runFn, Src.TransportLayerLogic_p_request_tx_flowcontrol]
     rx_eval []
-    rfl
   · rx_eval []
   · intro k hk
     simp only [reqFcEnv, set_apply, hk, if_false]
@@ -543,11 +540,10 @@ theorem stop_receiving_src (hI : env "self.RxState.IDLE" = some (.sc (.enum "RxS
     runFn (rxMethsOf now tCf start data) env Src.TransportLayerLogic_p_stop_receiving = .ok (pnone, stopRecvEnv env) := by
   simp only [runFn, Src.TransportLayerLogic_p_stop_receiving]
   rx_eval [hI]
-  rfl
 
 theorem lst_rxdl (M : Meths) (env : Env) :
     eval M env (.lst (.cons (.int (8)) (.cons (.int (12)) (.cons (.int (16)) (.cons (.int (20)) (.cons (.int (24))
-      (.cons (.int (32)) (.cons (.int (48)) (.cons (.int (64)) .nil))))))))))
+      (.cons (.int (32)) (.cons (.int (48)) (.cons (.int (64)) .nil)))))))))
       = .ok (.list [.py (.int 8), .py (.int 12), .py (.int 16), .py (.int 20), .py (.int 24), .py (.int 32), .py (.int 48),
                     .py (.int 64)]) := rfl
 
@@ -576,17 +572,293 @@ theorem start_reception_src (hC : Consts env) (len rxDl mx : Int) (dat : Bytes)
   rw [startRecProc_eq now tCf env _ len rxDl mx dat hl hr hd hm]
   simp only [runFn, Src.TransportLayerLogic_p_start_reception_after_first_frame_if_valid]
   cases hv : validRxDlInt rxDl
-  · rx_eval [↓lst_rxdl, emptyBufEnv, hl, hr, hd, hm, notIn_rxdl, pint_bne_pnone, hv, hC.idle, Bool.not_false]
+  · rx_eval [↓lst_rxdl, hl, hr, hd, hm, notIn_rxdl, pint_bne_pnone, hv, hC.idle, Bool.not_false]
     exact ⟨_, _, rfl, by simp only [startRecEnv, hv]; rfl⟩
   · by_cases hgt : mx < len
-    · rx_eval [↓lst_rxdl, emptyBufEnv, hl, hr, hd, hm, notIn_rxdl, pint_bne_pnone, hv, hC.idle, hC.ovf, cmp_gt_pint, hgt,
+    · rx_eval [↓lst_rxdl, hl, hr, hd, hm, notIn_rxdl, pint_bne_pnone, hv, hC.idle, hC.ovf, cmp_gt_pint, hgt,
         Bool.not_true, decide_true]
       exact ⟨_, _, rfl, by simp only [startRecEnv, hv, hgt]; rfl⟩
-    · rx_eval [↓lst_rxdl, emptyBufEnv, hl, hr, hd, hm, notIn_rxdl, pint_bne_pnone, hv, hC.waitCf, hC.cts, cmp_gt_pint, hgt,
+    · rx_eval [↓lst_rxdl, hl, hr, hd, hm, notIn_rxdl, pint_bne_pnone, hv, hC.waitCf, hC.cts, cmp_gt_pint, hgt,
         Bool.not_true, decide_false, extendProc]
       exact ⟨_, _, rfl, by simp only [startRecEnv, hv, hgt]; rfl⟩
 
 end helpers
+
+/-! ### 4b. the environment transformers = the model functions -/
+
+/-- `Rep s' env'` for an `env'` built from `env` by `Env.set`s, given `h : Rep s env`: one lookup per attribute -/
+macro "rep_tac" h:ident : tactic =>
+  `(tactic| (constructor <;>
+      (try simp only [stopRecvEnv, trigEnv, putEnv, emptyBufEnv, stopFcEnv, timerStopEnv, timerStartEnv, startCfEnv, reqFcEnv,
+        set_apply, String.reduceEq, ↓reduceIte, ($h).errors, ($h).delivered, ($h).rxQueue, scListOf_some]) <;>
+      first
+        | rfl
+        | exact ($h).rxState | exact ($h).rxFrameLen | exact ($h).lastSeq | exact ($h).rxBlockCnt | exact ($h).actualRxdl
+        | exact ($h).rxBuf | exact ($h).pendingFc | exact ($h).pfs | exact ($h).tStart | exact ($h).tTimeout
+        | exact ($h).blocksize | exact ($h).maxFrameSize | exact ($h).cfTimeout | exact ($h).mb
+        | exact ($h).fcS | exact ($h).fcB | exact ($h).fcM
+        | (intro f hf; cases hf)))
+
+/-- the same for the read-only parts -/
+macro "consts_tac" h:ident : tactic =>
+  `(tactic| (constructor <;>
+      (try simp only [stopRecvEnv, trigEnv, putEnv, emptyBufEnv, stopFcEnv, timerStopEnv, timerStartEnv, startCfEnv, reqFcEnv,
+        set_apply, String.reduceEq, ↓reduceIte]) <;>
+      first
+        | exact ($h).t0 | exact ($h).t1 | exact ($h).t2 | exact ($h).t3 | exact ($h).idle | exact ($h).waitCf
+        | exact ($h).cts | exact ($h).ovf))
+
+macro "pdu_tac" h:ident : tactic =>
+  `(tactic| (constructor <;>
+      (try simp only [stopRecvEnv, trigEnv, putEnv, emptyBufEnv, stopFcEnv, timerStopEnv, timerStartEnv, startCfEnv, reqFcEnv,
+        set_apply, String.reduceEq, ↓reduceIte]) <;>
+      first
+        | exact ($h).type | exact ($h).canDl | exact ($h).rxDl | exact ($h).length | exact ($h).data | exact ($h).seqnum
+        | exact ($h).esc | exact ($h).fs | exact ($h).bs | exact ($h).stmin))
+
+section transformers
+variable {s : State} {env : Env}
+
+theorem errsOf_error (s : State) (e : Err) : errsOf (s.error e).log = errsOf s.log ++ [errSc e] := rfl
+theorem deliveredOf_error (s : State) (e : Err) : deliveredOf (s.error e).log = deliveredOf s.log := rfl
+theorem errsOf_deliver (s : State) (p : Bytes) : errsOf (s.deliver p).log = errsOf s.log := rfl
+theorem deliveredOf_deliver (s : State) (p : Bytes) : deliveredOf (s.deliver p).log = deliveredOf s.log ++ [p] := rfl
+
+theorem rxQueue_deliver (s : State) (p : Bytes) : (s.deliver p).rxQueue = s.rxQueue ++ [p] := rfl
+
+theorem Rep.trig (h : Rep s env) (e : Err) : Rep (s.error e) (trigEnv e.name env) := by rep_tac h
+theorem Rep.put (h : Rep s env) (p : Bytes) : Rep (s.deliver p) (putEnv p env) := by
+  constructor <;>
+    (try simp only [putEnv, set_apply, String.reduceEq, ↓reduceIte, h.delivered, h.rxQueue, scListOf_some,
+      deliveredOf_deliver, rxQueue_deliver, encodePayloads_append])
+  all_goals first
+    | rfl
+    | exact h.rxState | exact h.rxFrameLen | exact h.lastSeq | exact h.rxBlockCnt | exact h.actualRxdl
+    | exact h.rxBuf | exact h.pendingFc | exact h.pfs | exact h.tStart | exact h.tTimeout
+    | exact h.blocksize | exact h.maxFrameSize | exact h.cfTimeout | exact h.mb | exact h.errors
+    | exact h.fcS | exact h.fcB | exact h.fcM
+theorem Rep.emptyBuf (h : Rep s env) : Rep { s with rxBuf := [] } (emptyBufEnv env) := by rep_tac h
+theorem Rep.stopFc (h : Rep s env) : Rep { s with pendingFc := false, lastFc := none } (stopFcEnv env) := by rep_tac h
+theorem Rep.timerStop (h : Rep s env) : Rep { s with timerCf := s.timerCf.stop } (timerStopEnv env) := by rep_tac h
+theorem Rep.startCf (h : Rep s env) : Rep s.startRxCfTimer (startCfEnv s.now s.cfg.tCf env) := by rep_tac h
+theorem Rep.extend (h : Rep s env) (d : Bytes) :
+    Rep { s with rxBuf := s.rxBuf ++ d } (env.set "self.rx_buffer" (.bytes (s.rxBuf ++ d))) := by rep_tac h
+theorem Rep.reqFc (h : Rep s env) (st : Nat) : Rep (s.requestFc st) (reqFcEnv (pint st) env) := by rep_tac h
+theorem Rep.stopRecv (h : Rep s env) : Rep s.stopReceiving (stopRecvEnv env) := by rep_tac h
+
+
+theorem validRxDlInt_nat (n : Nat) : validRxDlInt (n : Int) = validTxDl n := by
+  unfold validRxDlInt validTxDl
+  rw [Bool.eq_iff_iff]
+  simp only [Bool.or_eq_true, beq_iff_eq, decide_eq_true_eq]
+  omega
+
+/-- the keys `_start_reception_after_first_frame_if_valid` may write -/
+def startRecKeys : List String :=
+  ["self.rx_buffer", "#errors", "self.actual_rxdl", "self.rx_state", "self.pending_flow_control_tx",
+   "self.last_flow_control_frame", "self.timer_rx_cf.start_time", "started", "self.pending_flowcontrol_status",
+   "self.last_seqnum", "self.rx_block_counter", "self.rx_frame_length", "self.timer_rx_cf", "self.timer_rx_cf.timeout"]
+
+theorem startRecEnv_frame (now tCf : Nat) (len rxDl : Int) (dat : Bytes) (mx : Int) (env : Env) (k : String)
+    (hk : k ∉ startRecKeys) : startRecEnv now tCf len rxDl dat mx env k = env k := by
+  simp only [startRecKeys, List.mem_cons, List.not_mem_nil, or_false, not_or] at hk
+  obtain ⟨h1, h2, h3, h4, h5, h6, h7, h8, h9, h10, h11, h12, h13, h14⟩ := hk
+  unfold startRecEnv
+  simp only [stopRecvEnv, trigEnv, emptyBufEnv, stopFcEnv, timerStopEnv, timerStartEnv, startCfEnv, reqFcEnv]
+  split
+  · simp only [set_apply, *, if_false]
+  · split <;> simp only [set_apply, *, if_false]
+
+/-- `_start_reception_after_first_frame_if_valid` = `State.startReception`, state and result -/
+theorem Rep.startRec (h : Rep s env) (len rxDl : Nat) (dat : Bytes) :
+    Rep (s.startReception len dat rxDl).1 (startRecEnv s.now s.cfg.tCf len rxDl dat s.cfg.maxFrameSize env) ∧
+    startRecEnv s.now s.cfg.tCf len rxDl dat s.cfg.maxFrameSize env "started"
+      = some (pbool (s.startReception len dat rxDl).2) := by
+  unfold startRecEnv State.startReception
+  simp only [validRxDlInt_nat]
+  cases hv : validTxDl rxDl
+  · simp only [Bool.not_false, if_true]
+    exact ⟨by rep_tac h, rfl⟩
+  · by_cases hgt : len > s.cfg.maxFrameSize
+    · have hgt' : (len : Int) > (s.cfg.maxFrameSize : Int) := by omega
+      simp only [Bool.not_true, Bool.false_eq_true, if_false, hgt, hgt', if_true]
+      exact ⟨by rep_tac h, rfl⟩
+    · have hgt' : ¬ (len : Int) > (s.cfg.maxFrameSize : Int) := by omega
+      simp only [Bool.not_true, Bool.false_eq_true, if_false, hgt, hgt']
+      exact ⟨by rep_tac h, rfl⟩
+
+end transformers
+
+/-! ## 5. `_process_rx`, cut along its structure -/
+
+abbrev body : PBlock := Src.TransportLayerLogic_p_process_rx
+/-- `try: pdu = PDU(msg, start_of_data=...) except Exception as e: ...; return` -/
+def st0 : PStmt := bhead (bdrop 0 body)
+/-- `if pdu.type == FLOW_CONTROL: self.last_flow_control_frame = pdu; return` -/
+def st1 : PStmt := bhead (bdrop 1 body)
+/-- `frame_complete = False` -/
+def st2 : PStmt := bhead (bdrop 2 body)
+/-- `if pdu.type == SINGLE_FRAME: if pdu.can_dl > 8 and pdu.escape_sequence == False: ...; return` -/
+def st3 : PStmt := bhead (bdrop 3 body)
+/-- `immediate_tx_msg_required = False` -/
+def st4 : PStmt := bhead (bdrop 4 body)
+/-- the state machine: `if self.rx_state == IDLE: ... elif self.rx_state == WAIT_CF: ...` -/
+def st5 : PStmt := bhead (bdrop 5 body)
+/-- `if self.pending_flow_control_tx: immediate_tx_msg_required = True` -/
+def st6 : PStmt := bhead (bdrop 6 body)
+/-- `return self.ProcessRxReport(immediate_tx_required=immediate_tx_msg_required, frame_received=frame_complete)` -/
+def st7 : PStmt := bhead (bdrop 7 body)
+
+theorem body_shape : body =
+    .cons st0 (.cons st1 (.cons st2 (.cons st3 (.cons st4 (.cons st5 (.cons st6 (.cons st7 .nil))))))) := rfl
+
+/-- the IDLE branch -/
+def idleBlk : PBlock := thenOf st5
+/-- the WAIT_CF branch -/
+def waitStmt : PStmt := bhead (elseOf st5)
+def waitBlk : PBlock := thenOf waitStmt
+
+theorem st5_shape : st5 =
+    .ite (.cmp .eq (.var "self.rx_state") (.var "self.RxState.IDLE")) idleBlk
+      (.cons (.ite (.cmp .eq (.var "self.rx_state") (.var "self.RxState.WAIT_CF")) waitBlk .nil) .nil) := rfl
+
+theorem pvEq_rxSt_idle (r : RxSt) : pvEq (rxStPV r) (.sc (.enum "RxState" "IDLE")) = decide (r = .idle) := by
+  cases r <;> rfl
+theorem pvEq_rxSt_waitCf (r : RxSt) : pvEq (rxStPV r) (.sc (.enum "RxState" "WAIT_CF")) = decide (r = .waitCf) := by
+  cases r <;> rfl
+
+section sm
+variable (now tCf start : Nat) (data : Bytes)
+local notation "M" => rxMethsOf now tCf start data
+
+/-- statements 6-7: the pending Flow Control request and the report -/
+theorem tail_run {s : State} {env : Env} {fc itx : Bool} (hR : Rep s env)
+    (hfc : env "frame_complete" = some (pbool fc)) (hitx : env "immediate_tx_msg_required" = some (pbool itx)) :
+    ∃ env', execBlock M env (.cons st6 (.cons st7 .nil))
+        = .ok (.returned (.list [.py (.bool (itx || s.pendingFc)), .py (.bool fc)]) env') ∧ Rep s env' := by
+  simp only [st6, st7, bhead, bdrop, body, Src.TransportLayerLogic_p_process_rx]
+  cases hp : s.pendingFc
+  · rx_eval [hR.pendingFc, hp, hfc, hitx, Bool.or_false]
+    exact ⟨_, rfl, hR⟩
+  · rx_eval [hR.pendingFc, hp, hfc, hitx, Bool.or_true]
+    exact ⟨_, rfl, by rep_tac hR⟩
+
+end sm
+
+
+def repKeys : List String :=
+  ["self.rx_state", "self.rx_frame_length", "self.last_seqnum", "self.rx_block_counter", "self.actual_rxdl", "self.rx_buffer",
+   "self.pending_flow_control_tx", "self.pending_flowcontrol_status", "self.timer_rx_cf.start_time", "self.timer_rx_cf.timeout",
+   "self.params.blocksize", "self.params.max_frame_size", "self.params.rx_consecutive_frame_timeout", "#errors", "#delivered",
+   "#rx_queue", "self.last_flow_control_frame", "fc.flow_status", "fc.blocksize", "fc.stmin"]
+
+/-- writing a local variable (any other name) does not change the object -/
+theorem Rep.setLocal {s : State} {env : Env} (h : Rep s env) (k : String) (v : PV) (hk : k ∉ repKeys) : Rep s (env.set k v) := by
+  simp only [repKeys, List.mem_cons, List.not_mem_nil, or_false, not_or] at hk
+  obtain ⟨h1, h2, h3, h4, h5, h6, h7, h8, h9, h10, h11, h12, h13, h14, h15, h16, h17, h18, h19, h20⟩ := hk
+  cases h
+  constructor <;> simp only [set_apply, Ne.symm h1, Ne.symm h2, Ne.symm h3, Ne.symm h4, Ne.symm h5, Ne.symm h6, Ne.symm h7,
+    Ne.symm h8, Ne.symm h9, Ne.symm h10, Ne.symm h11, Ne.symm h12, Ne.symm h13, Ne.symm h14, Ne.symm h15, Ne.symm h16,
+    Ne.symm h17, Ne.symm h18, Ne.symm h19, Ne.symm h20, if_false] <;> assumption
+
+theorem pvEq_enum_self (c m : String) : pvEq (.sc (.enum c m)) (.sc (.enum c m)) = true := by simp
+theorem pvEq_idle_wait : pvEq (.sc (.enum "RxState" "WAIT_CF")) (.sc (.enum "RxState" "IDLE")) = false := by decide
+theorem pvEq_wait_idle : pvEq (.sc (.enum "RxState" "IDLE")) (.sc (.enum "RxState" "WAIT_CF")) = false := by decide
+
+/-- a lookup of a local variable through a chain of `Env.set`s -/
+macro "loc_tac" : tactic =>
+  `(tactic| (simp only [set_apply, String.reduceEq, ↓reduceIte] <;> try assumption))
+
+
+
+/-- `if pdu.type == SF: .. elif pdu.type == FF: .. elif pdu.type == CF: ..` of the IDLE branch -/
+def idleDispatch : PStmt := bhead (bdrop 2 idleBlk)
+def sfI : PBlock := thenOf idleDispatch
+def ffI : PBlock := thenOf (bhead (elseOf idleDispatch))
+def cfI : PBlock := thenOf (bhead (elseOf (bhead (elseOf idleDispatch))))
+/-- the same of the WAIT_CF branch -/
+def waitDispatch : PStmt := bhead waitBlk
+def sfW : PBlock := thenOf waitDispatch
+def ffW : PBlock := thenOf (bhead (elseOf waitDispatch))
+def cfW : PBlock := thenOf (bhead (elseOf (bhead (elseOf waitDispatch))))
+/-- `if pdu.seqnum == expected_seqnum: cfOk else: cfBad` -/
+def seqStmt : PStmt := bhead (bdrop 1 cfW)
+def cfOk : PBlock := thenOf seqStmt
+def cfBad : PBlock := elseOf seqStmt
+/-- `if pdu.rx_dl != self.actual_rxdl and pdu.rx_dl < bytes_to_receive: ...; return` -/
+def chgStmt : PStmt := bhead (bdrop 1 cfOk)
+/-- `if len(self.rx_buffer) >= self.rx_frame_length: complBlk else: moreBlk` -/
+def complStmt : PStmt := bhead (bdrop 5 cfOk)
+def complBlk : PBlock := thenOf complStmt
+def moreBlk : PBlock := elseOf complStmt
+
+def typeIs (c : String) : PExpr := .cmp .eq (.var "pdu.type") (.var c)
+def dispatch3 (bs bf bc : PBlock) : PStmt :=
+  .ite (typeIs "PDU.Type.SINGLE_FRAME") bs (.cons (.ite (typeIs "PDU.Type.FIRST_FRAME") bf
+    (.cons (.ite (typeIs "PDU.Type.CONSECUTIVE_FRAME") bc .nil) .nil)) .nil)
+
+theorem idleBlk_shape : idleBlk =
+    .cons (.assign "self.rx_frame_length" (.int (0))) (.cons (.expr (.call "self.timer_rx_cf.stop" .nil))
+      (.cons (dispatch3 sfI ffI cfI) .nil)) := rfl
+theorem waitBlk_shape : waitBlk = .cons (dispatch3 sfW ffW cfW) .nil := rfl
+theorem cfW_shape : cfW =
+    .cons (.assign "expected_seqnum" (.binop .band (.binop .add (.var "self.last_seqnum") (.int (1))) (.int (15))))
+      (.cons (.ite (.cmp .eq (.var "pdu.seqnum") (.var "expected_seqnum")) cfOk cfBad) .nil) := rfl
+theorem cfOk_shape : cfOk =
+    .cons (.assign "bytes_to_receive" (.binop .sub (.var "self.rx_frame_length") (.call "len" (.cons (.var "self.rx_buffer") .nil))))
+    (.cons chgStmt
+    (.cons (.expr (.call "self._start_rx_cf_timer" .nil))
+    (.cons (.assign "self.last_seqnum" (.var "pdu.seqnum"))
+    (.cons (.expr (.call "self._append_rx_data" (.cons (.sliceTo (.var "pdu.data") (.var "bytes_to_receive")) .nil)))
+    (.cons (.ite (.cmp .ge (.call "len" (.cons (.var "self.rx_buffer") .nil)) (.var "self.rx_frame_length")) complBlk moreBlk)
+    .nil))))) := rfl
+
+/-! generic stepping lemmas (the blocks are variables: `simp` never looks into a branch that is not taken) -/
+
+theorem exec_ite (M : Meths) (env : Env) (c : PExpr) (t e : PBlock) (b : Bool) (hc : eval M env c = .ok (pbool b)) :
+    execStmt M env (.ite c t e) = execBlock M env (if b then t else e) := by
+  cases b <;> simp only [execStmt, hc, ok_bind, truthy_pbool, ite_ff] <;> rfl
+
+theorem block_next (M : Meths) (env env' : Env) (s : PStmt) (r : PBlock) (h : execStmt M env s = .ok (.next env')) :
+    execBlock M env (.cons s r) = execBlock M env' r := by
+  simp only [execBlock, h, ok_bind]
+
+theorem block_ret (M : Meths) (env env' : Env) (v : PV) (s : PStmt) (r : PBlock) (h : execStmt M env s = .ok (.returned v env')) :
+    execBlock M env (.cons s r) = .ok (.returned v env') := by
+  simp only [execBlock, h, ok_bind]
+
+theorem block_nil (M : Meths) (env : Env) : execBlock M env .nil = .ok (.next env) := rfl
+
+/-- the three-way dispatch on the frame type -/
+theorem dispatch3_run (M : Meths) (env : Env) (hC : Consts env) (bs bf bc : PBlock) (k : Nat)
+    (ht : env "pdu.type" = some (pint k)) :
+    execStmt M env (dispatch3 bs bf bc) =
+      if k = 0 then execBlock M env bs else if k = 1 then execBlock M env bf else if k = 2 then execBlock M env bc
+      else .ok (.next env) := by
+  have e0 : eval M env (typeIs "PDU.Type.SINGLE_FRAME") = .ok (pbool (decide (k = 0))) := by
+    simp [typeIs, eval, ht, hC.t0]
+    rw [Bool.eq_iff_iff]; simp only [beq_iff_eq, decide_eq_true_eq]; omega
+  have e1 : eval M env (typeIs "PDU.Type.FIRST_FRAME") = .ok (pbool (decide (k = 1))) := by
+    simp [typeIs, eval, ht, hC.t1]
+    rw [Bool.eq_iff_iff]; simp only [beq_iff_eq, decide_eq_true_eq]; omega
+  have e2 : eval M env (typeIs "PDU.Type.CONSECUTIVE_FRAME") = .ok (pbool (decide (k = 2))) := by
+    simp [typeIs, eval, ht, hC.t2]
+    rw [Bool.eq_iff_iff]; simp only [beq_iff_eq, decide_eq_true_eq]; omega
+  unfold dispatch3
+  rw [exec_ite M env _ _ _ _ e0]
+  by_cases h0 : k = 0
+  · simp only [h0, decide_true, if_true]
+  · simp only [h0, decide_false, if_false, Bool.false_eq_true]
+    rw [execBlock_single, exec_ite M env _ _ _ _ e1]
+    by_cases h1 : k = 1
+    · simp only [h1, decide_true, if_true]
+    · simp only [h1, decide_false, if_false, Bool.false_eq_true]
+      rw [execBlock_single, exec_ite M env _ _ _ _ e2]
+      by_cases h2 : k = 2
+      · simp only [h2, decide_true, if_true]
+      · simp only [h2, decide_false, if_false, Bool.false_eq_true]
+        rfl
+
 
 end Rx
 
